@@ -630,6 +630,12 @@ func genModelFontOpt(rng *rand.Rand, nested bool) *modelFont {
 			g := genModelGlyph(rng, "", lay, mf.feat)
 			w.Glyphs = append(w.Glyphs, g)
 			mf.feat["empty glyph name"] = true
+			if !w.StdEncoding && len(w.Encoding) == 256 && len(want.Encoding) == 256 && rng.IntN(2) == 0 {
+				// ... and a code that selects it (`dup 66 / put`)
+				code := rng.IntN(256)
+				w.Encoding[code], want.Encoding[code] = "", ""
+				mf.feat["empty glyph name in the encoding"] = true
+			}
 		}
 		for i := 0; i < 3; i++ {
 			name := genGlyphName(rng, i)
